@@ -1,6 +1,7 @@
 package checks
 
 import (
+	"bytes"
 	"fmt"
 	"strings"
 	"time"
@@ -170,6 +171,9 @@ type c12Loader struct{ m map[string]string }
 // c12NamePolicy: what the Template handed out by the loader reports as its Name() - a host-written loader may report
 // a record key, nothing, or a revision-suffixed name; the content type is that of the name the template was asked for
 var c12NamePolicy int
+
+// c12OtherEnv: other environments with other escapers are built and used before the environment under test renders
+var c12OtherEnv bool
 
 func c12Reported(name string) string {
 	switch c12NamePolicy {
@@ -412,12 +416,28 @@ func c12Run(c core.Case) core.Result {
 		_ = stick.NewSafeValue(orig, own) // a wider re-wrap of the value; the original stays safe for the other type only
 		val = orig
 	}
-	c12NamePolicy = 0
+	c12NamePolicy, c12OtherEnv = 0, false
 	if len(c.N) > 6 {
-		c12NamePolicy = c.N[6]
-		defer func() { c12NamePolicy = 0 }()
+		c12NamePolicy = c.N[6] % 100
+		c12OtherEnv = c.N[6] >= 100
+		defer func() { c12NamePolicy, c12OtherEnv = 0, false }()
 	}
 	env := twig.New(&c12Loader{tpls})
+	if c12OtherEnv {
+		// another environment of the process, configured for plain-text mail: its escape filter passes everything
+		// through, and it registers an extension of its own with other escapers
+		mail := twig.New(nil)
+		mail.Filters["escape"] = func(ctx stick.Context, v stick.Value, args ...stick.Value) stick.Value { return v }
+		mail.Filters["raw"] = mail.Filters["escape"]
+		ext := twig.NewAutoEscapeExtension()
+		ext.Escapers["html"] = func(s string) string { return s }
+		ext.Escapers["js"] = ext.Escapers["html"]
+		other := stick.New(nil)
+		other.Register(ext)
+		var sink bytes.Buffer
+		mail.Execute("{{ 'x'|escape }}", &sink, nil)
+		other.Execute("{{ 'x' }}", &sink, nil)
+	}
 	env.Functions["f"] = func(ctx stick.Context, args ...stick.Value) stick.Value { return val }
 	env.Filters["idf"] = func(ctx stick.Context, v stick.Value, args ...stick.Value) stick.Value { return v }
 	ctx := map[string]stick.Value{"x": val, "o": map[string]stick.Value{"attr": val}, "c": true}
@@ -534,6 +554,17 @@ func c12Levels(tier string) []core.Level {
 							for pol := 1; pol <= 5; pol++ {
 								emit(core.Case{Fam: "print", N: []int{pos, 0, pi, ni, m, 0, pol}})
 							}
+						}
+					}
+				}
+			}
+		}},
+		{Name: "other environments in the process (a mail environment whose escape filter passes everything through, a core environment with an AutoEscapeExtension of its own escapers) built and used after the environment under test was created: 31 positions x 3 payloads x 19 names x {none, escape, raw}", Gen: func(emit func(core.Case)) {
+			for pos := 0; pos < c12Positions; pos++ {
+				for _, pi := range []int{0, 4, 8} {
+					for ni := range c12Names {
+						for _, m := range []int{0, 1, 2} {
+							emit(core.Case{Fam: "print", N: []int{pos, 0, pi, ni, m, 0, 100}})
 						}
 					}
 				}
